@@ -4,13 +4,13 @@ TB = " Trusted: rustc MIR construction, the mirdump driver, the rule code, libra
 STRUCT = "Decides structural necessary conditions only, not the runtime behaviour as a whole: "
 
 claim("C01", "other",
-      STRUCT + "ORD-1 — every one of the ~127 references to a numeric wire primitive in dlt.rs/parse.rs uses the message byte order parameter in order-generic code, the spec-fixed order in header code, forwards to the same-width nom primitive in the NomByteOrder impls, and is selected by the matching `endianness == Big` branch at the dispatch sites; no order-dependent constant byte string is written in order-generic code.",
-      "Not decided: equality of field values through nom/byteorder/String (library semantics), the round-trip equality itself." + TB,
-      "type-resolved call/value reference classification + control-dependence on the endianness predicate (MIR dominators)", "DESIGN §4 C01")
+      STRUCT + "WIRE — the abstract interpreter runs the writers with the byte order abstract and returns each output buffer as an ordered segment sequence; for all 46 well-formed argument shapes (kind x width x variable info x fixed point x offset width), the 4 payload kinds, the storage / standard (8 presence patterns) / extended header and the 8 message shapes the sequence equals the DLT layout: field order, widths, byte-order class, source field and length-prefix arithmetic (prefix = bytes emitted incl. NUL, raw without); ORD-1 — byte-order discipline of all ~127 numeric primitive references on both sides; CONS/ORDER/HINT (shared with C04/C05) — every Ok exit of the parser returns input[A+L..], requires the whole declared message to be present, hints never exceed the shortfall: nothing behind the message influences the result.",
+      "Not decided: the parser-side field-by-field layout (only its consumption, byte-order discipline and suffix contract are decided), equality of field values through nom/byteorder/String (library semantics), the round-trip equality itself." + TB,
+      "abstract interpretation of the writers into symbolic segment sequences compared with spec layouts; linear consumption identities on parser exits; type-resolved byte-order classification", "DESIGN §4 C01")
 claim("C02", "other",
-      STRUCT + "CONST-1 — all 39+ layout constants and width discriminants evaluate to the values transcribed from the DLT PRS; ORD-1 — header fields big-endian, storage-header timestamps little-endian, payload in message order.",
-      "Not decided: verdict equivalence with a reference decoder over all byte strings." + TB,
-      "compiler-evaluated constants vs spec table + ORD-1", "DESIGN §4 C02")
+      STRUCT + "WIRE — the same writer layouts compared with the layout table transcribed from the DLT PRS (independent of the crate's parser, so an error made consistently on both sides is still reported): storage header 'DLT\\x01' + LE seconds + LE microseconds + 4-byte id; HTYP, MCNT, BE LEN, ECU id, BE session id, BE timestamp in that order; MSIN, NOAR, APID, CTID; per-kind argument layouts; CONST-1 — all 39+ layout constants and width discriminants equal the spec values; ORD-1 — header fields big-endian, storage header little-endian, payload in message order (parser side included).",
+      "Not decided: verdict equivalence with a reference decoder over all byte strings; the accepted dialect (covered structurally by C14/C19 only)." + TB,
+      "symbolic segment sequences of the writers vs spec layout table + compiler-evaluated constants vs spec table + ORD-1", "DESIGN §4 C02")
 claim("C03", "proof",
       "PANIC: every panic-capable site (MIR Assert terminators for overflow / bounds / division, range indexing, split_at, byteorder reads, debug_assert, deny-listed callees) reachable from dlt_message (both storage modes, any filter), dlt_consume_msg, skip_storage_header, forward_to_next_storage_header, dlt_zero_terminated_string and construct_arguments is discharged for unconstrained inputs by abstract interpretation: dlt_message_intern in context (partitioned on storage mode, find outcome, header-type and message-info flag bits), the argument parser dlt_argument modularly under the nom suffix contract, which is verified on its own exits (NOMC). WRITER: Message::{as_bytes,byte_len} and Argument::{len,valid,as_bytes,is_empty} are discharged under the interface invariant I(Message) (string/raw lengths <= 65534, overall_length fits u16); IMSG: the guarantee side of I(Message) is verified for parser results (containers of a returned Argument are bounded by its input, dlt_argument only runs inside the declared payload, overall_length() of the parsed header discharged in context).",
       "Not decided: panics inside dependencies (nom, memchr, bytes, log, format!), allocation failure. 'Each argument passes the validity check' is not decided. I(Message) for hand-built messages is an assumption, not a guarantee." + TB,
@@ -20,9 +20,9 @@ claim("C04", "proof",
       "Not decided: library parsers are trusted to honour the nom contract." + TB,
       "abstract interpretation: (base, offset, length) slices with linear offsets, exits compared with the declared-length identity per partition", "DESIGN §4 C04")
 claim("C05", "other",
-      STRUCT + "CALL-S — every nom primitive reachable (resolved call graph incl. closures and fn-item values) from dlt_message / dlt_consume_msg is a streaming one; complete primitives and Incomplete-swallowing combinators are rejected (one allow-listed complete::be_u8 behind the length verdict).",
-      "Not decided: hints produced inside nom; value-dependent hard errors inside the available bytes." + TB,
-      "call-graph reachability over resolved callees", "DESIGN §4 C05")
+      STRUCT + "ORDER — every Ok exit of dlt_message_intern / dlt_consume_msg entails len(input) >= A + L (a message, filtered or invalid marker is never returned unless the whole declared message is present); HINT — every Incomplete(Size(n)) exit whose hint is a linear expression entails n <= (smallest possible end of a well-formed message consistent with the bytes read) - len(input), n >= 1 by NonZeroUsize; ERR — every hard-error exit reachable while the declared message is not completely present is justified by a tag mismatch or the header-length consistency check (value checks a well-formed message passes); CALL-S — every nom primitive reachable from the two entry points is a streaming one (one allow-listed complete::be_u8 behind the length verdict).",
+      "Not decided: hints joined from several nom primitives inside the header parsers (trusted to nom; counted in the evidence), value-dependent hard errors inside the available bytes." + TB,
+      "abstract interpretation of the parser exits (linear facts per partition) + call-graph reachability over resolved callees", "DESIGN §4 C05")
 claim("C06", "other",
       STRUCT + "the storage-header pattern constant is 'DLT\\x01', the finder is built from exactly that constant and searched with memmem::Finder::find (first occurrence).",
       "Not decided: memchr's search correctness." + TB,
@@ -52,6 +52,10 @@ claim("C14", "other",
       "Not decided yet: the bit-level decode/encode tables (engine layer)." + TB,
       "compiler-evaluated constants vs spec table", "DESIGN §4 C14")
 
+claim("C15", "other",
+      STRUCT + "WIRE-L — Argument::len() equals the number of bytes Argument::as_bytes::<T>() emits, as a linear identity over name/unit/value lengths for each of the 46 well-formed shapes (byte order abstract, so both orders); TAB-N — Message::new records payload_length = length of the payload serialised in the order chosen by conf.endianness, has_extended_header <=> extended header built, verbose flag and argument count per payload kind as the parser requires them (verbose for Verbose and NetworkTrace, NOAR from the number of arguments / slices); LEN — overall_length() = payload_length + 4 + 4*[ecu] + 4*[session] + 4*[timestamp] + 10*[extended] on all 16 presence patterns and byte_len() forwards to it; STORAGE — add_storage_header sets only the storage header (timestamp argument, header ECU id or 'ECU'); VALID — the validity table of Bool/Float32/Float64 kinds.",
+      "Not decided: 'parses back to an equal message' beyond these structural conditions; the wall-clock branch of add_storage_header(None)." + TB,
+      "abstract interpretation: symbolic lengths and segment sequences per shape partition; decision tables per enum variant", "DESIGN §4 C15")
 claim("C17", "proof",
       "TERM + PANIC: the abstract interpreter computes seconds and microseconds as linear terms over (x div D) and (x mod D) and proves seconds*10^6 + microseconds = U*x and microseconds <= 999999 from x = D*(x div D) + (x mod D), for every x with whole seconds below 2^32; every overflow / division obligation of both constructors is discharged by interval arithmetic. The functions are straight-line arithmetic, so the term identity covers all inputs.",
       "Axioms: MIR integer semantics of the dev profile (checked arithmetic)." + TB,
@@ -65,5 +69,5 @@ claim("C19", "proof",
       "Trusted: nom's take_while_m_n / take streaming contracts, std from_utf8 (valid_up_to = longest valid prefix)." + TB,
       "abstract interpretation over slices with linear byte accounting + nom combinator contracts", "DESIGN §4 C19")
 
-for _p in ["C09","C11","C15","C16"]:
+for _p in ["C09","C11","C16"]:
     NOT_YET[_p] = "check not armed yet in this build round (needs the abstract-interpretation layer, DESIGN §7 steps 3-5); no verdict is claimed until the rule runs"
